@@ -2,10 +2,13 @@
 // baseapp.LaunchAppWithMode / App.Stop) and the node App (through StartNode / StopNode)
 // with scripted modules and with the modules shipped with the framework (welcome, actor
 // system, cluster), and logs every module entry, every next() and every finish() call.
+// In cluster mode the ClusterModule's own clientv3 client talks to an in-process etcd stand-in
+// (etcdfake.go) on which every etcd operation of ClusterModule.Start / Stop can be made to fail.
 //
 // An operation list is pure data (see coq/theories/C11/Model.v for the meaning):
 //
 //	OMode m | OEnv addr enable etcd | OMod kind      declarations, collected from the whole list
+//	OFault f                                         declaration: the etcd operation that fails (etcdfake.go)
 //	OStart | OStop                                   ModList.Start/Stop, App start/stop, StartNode/StopNode
 //	OFire k b                                        invoke the continuation captured at the k-th module entry with b
 //
@@ -58,6 +61,7 @@ type envT struct {
 	addr     string // AFree | ABusy | ABad
 	enable   bool
 	etcd     bool
+	faults   map[string]bool
 	mods     []kindT
 }
 
@@ -70,7 +74,7 @@ func parseBeh(t hx.T) beh {
 }
 
 func parseEnv(ops []hx.T) envT {
-	e := envT{mode: "MList", addr: "AFree"}
+	e := envT{mode: "MList", addr: "AFree", faults: map[string]bool{}}
 	for _, o := range ops {
 		switch o.Name {
 		case "OMode":
@@ -83,6 +87,8 @@ func parseEnv(ops []hx.T) envT {
 			e.addr = o.Term(0).Name
 			e.enable = o.Bool(1)
 			e.etcd = o.Bool(2)
+		case "OFault":
+			e.faults[o.Term(0).Name] = true
 		case "OMod":
 			k := o.Term(0)
 			kd := kindT{name: k.Name}
@@ -98,7 +104,8 @@ func parseEnv(ops []hx.T) envT {
 // ---------------------------------------------------------------- process-wide fixtures
 
 type fixtures struct {
-	dir      [2]string // config directory for cluster Enable false / true
+	dir      map[string]string // config directories: off (self cluster) | dead | fake | badep (see cfgDir)
+	etcd     *fakeEtcd
 	busy     net.Listener
 	launcher *executor // the executor whose modules the registered launch function adds
 }
@@ -118,18 +125,25 @@ func setup(scratch string) error {
 		}
 		scratch = d
 	}
-	f := &fixtures{}
+	f := &fixtures{dir: map[string]string{}}
 	lis, err := net.Listen("tcp", "127.0.0.1:0")
 	if err != nil {
 		return err
 	}
 	f.busy = lis
-	for i, en := range []string{"false", "true"} {
-		d := filepath.Join(scratch, "c11cfg-"+en)
+	if f.etcd, err = startFakeEtcd(); err != nil {
+		return err
+	}
+	// off: self cluster.  dead: nothing listens on the etcd endpoint (only usable when Start fails
+	// before its first request).  fake: the in-process etcd stand-in.  badep: an endpoint grpc
+	// cannot parse, so that etcd.NewWithConfig itself fails.
+	for _, v := range [][3]string{{"off", "false", "127.0.0.1:1"}, {"dead", "true", "127.0.0.1:1"},
+		{"fake", "true", f.etcd.addr}, {"badep", "true", "\"127.0.0.1:1%zz\""}} {
+		d := filepath.Join(scratch, "c11cfg-"+v[0])
 		if err := os.MkdirAll(d, 0o755); err != nil {
 			return err
 		}
-		cluster := "---\nEnable: " + en + "\nNodeCtrl: false\nName: vcluster\nETCDServer: 127.0.0.1:1\n"
+		cluster := "---\nEnable: " + v[1] + "\nNodeCtrl: false\nName: vcluster\nETCDServer: " + v[2] + "\n"
 		nodes := "---\nnodes:\n"
 		for _, n := range [][2]string{{"node-afree", "127.0.0.1:0"}, {"node-abusy", lis.Addr().String()}, {"node-abad", "badaddr"}} {
 			nodes += "  " + n[0] + ":\n    StartMode: " + launchName + "\n    Address: " + n[1] + "\n    Services: []\n"
@@ -141,7 +155,7 @@ func setup(scratch string) error {
 		if err := os.WriteFile(filepath.Join(d, "nodes.yaml"), []byte(nodes), 0o644); err != nil {
 			return err
 		}
-		f.dir[i] = d
+		f.dir[v[0]] = d
 	}
 	// silence cell2's loggers and the std logger (App.Cleanup prints)
 	logger.SetLogLevel(logrus.PanicLevel)
@@ -149,6 +163,7 @@ func setup(scratch string) error {
 		p.SetLogLevel(logrus.PanicLevel)
 	}
 	log.SetOutput(io.Discard)
+	os.Setenv("ETCD_CLIENT_DEBUG", "fatal") // clientv3 logs every failed request to stderr
 	baseapp.RegisterLaunchFunc(launchName, func(a interfaces.IApp) {
 		if fx.launcher != nil {
 			fx.launcher.addModules(a)
@@ -164,6 +179,18 @@ func setup(scratch string) error {
 
 // viper lower-cases the keys of nodes.yaml
 func nodeID(addr string) string { return "node-" + strings.ToLower(addr) }
+
+func (e envT) cfgDir() string {
+	switch {
+	case !e.enable:
+		return fx.dir["off"]
+	case e.faults["FNew"]:
+		return fx.dir["badep"]
+	case e.etcd:
+		return fx.dir["fake"]
+	}
+	return fx.dir["dead"]
+}
 
 func (e envT) address() string {
 	switch e.addr {
@@ -198,6 +225,9 @@ type executor struct {
 	ml      *module.ModList
 	node    *app.App
 	entered bool
+	etcd    *etcdCase // this case's view of the etcd stand-in
+	// a ClusterModule.Start reported success itself (provider goroutines are running) / settle ran
+	clusterUp, settled bool
 }
 
 func (x *executor) emit(t hx.T) {
@@ -227,6 +257,9 @@ func (m *smod) enter(fwd bool, next interfaces.FuncWithSucc) {
 	x.emit(hx.C("EEnter", r, m.idx))
 	x.caps = append(x.caps, capture{r, m.idx, next})
 	call := func(b bool) {
+		if fwd && b && m.kd.name == "KCluster" {
+			x.clusterUp = true
+		}
 		x.emit(hx.C("ENext", r, m.idx, b))
 		ok := false
 		defer func() {
@@ -377,6 +410,7 @@ func (x *executor) do(o hx.T) []any {
 			x.fire(o.Int(0), o.Bool(1))
 		}
 	}
+	x.settle()
 	x.mu.Lock()
 	out := x.cur
 	x.cur = []any{}
@@ -391,23 +425,21 @@ func safely(f func()) {
 
 func newExecutor(ops []hx.T) (*executor, error) {
 	env := parseEnv(ops)
-	if env.enable && env.addr != "ABad" {
+	if env.enable && env.addr != "ABad" && !env.etcd && !env.faults["FNew"] {
 		for _, m := range env.mods {
 			if m.name == "KCluster" {
-				return nil, fmt.Errorf("c11: cluster enabled with a usable address needs a live etcd; not realisable offline")
+				return nil, fmt.Errorf("c11: cluster enabled with a usable address and no etcd: the first request never returns; not realisable")
 			}
 		}
 	}
 	x := &executor{env: env, fired: map[int]int{}}
+	x.etcd = newEtcdCase(env.faults)
+	fx.etcd.begin(x.etcd)
 	x.buildModules()
 	x.node = app.NewNode()
 	app.Node = x.node
-	en := 0
-	if env.enable {
-		en = 1
-	}
 	if !(env.mode == "MApp" && !env.prepared) {
-		x.node.Prepare(fx.dir[en])
+		x.node.Prepare(env.cfgDir())
 		if env.mode != "MNode" {
 			// StartNode does this itself; the other modes leave the node info nil
 			x.node.GetCluster().InitSelf(env.address(), x.node.GetClusterCfg(), nodeID(env.addr), nil, nil)
@@ -428,6 +460,13 @@ func (x *executor) cleanup() {
 	x.mu.Lock()
 	x.dead = true
 	x.mu.Unlock()
+	// end the goroutines of providers that are still up (unrecorded: x.dead is set)
+	for _, m := range x.mods {
+		if sm := m.(*smod); sm.kd.name == "KCluster" && x.env.enable {
+			safely(func() { sm.inner.Stop(func(bool) {}) })
+		}
+	}
+	fx.etcd.begin(nil)
 	if s := actormodule.GetSystem(); s != nil && !s.IsStopped() {
 		safely(func() { remote.GetRemote(s).Shutdown(false) })
 		safely(func() { s.Shutdown() })
@@ -438,17 +477,74 @@ func (x *executor) cleanup() {
 	fx.launcher = nil
 }
 
+// settle gives the provider's watch and keep-alive goroutines the time to run into the faults
+// planned for them (they report nowhere: this is about driving those paths, not about the
+// observation).  Once, after a cluster module reported a successful start.
+func (x *executor) settle() {
+	if !(x.env.enable && x.env.etcd) || !x.clusterUp || x.settled {
+		return
+	}
+	x.settled = true
+	f := x.env.faults
+	deadline := time.Now().Add(400 * time.Millisecond)
+	for time.Now().Before(deadline) {
+		seen, inj := x.etcd.counters()
+		ok := seen["watch"] >= 1 && (!f["FWatch"] || seen["watch"] >= 3)
+		// the keep-alive goroutine: Grant, Put, stream; after a failure it sleeps for a second
+		switch {
+		case f["FKaGrant"]:
+			ok = ok && inj["FKaGrant"] >= 1
+		case f["FKaPut"]:
+			ok = ok && inj["FKaPut"] >= 1
+		default:
+			ok = ok && seen["keepalive"] >= 1 && (!f["FKaStream"] || inj["FKaStream"] >= 1)
+		}
+		if ok {
+			return
+		}
+		time.Sleep(time.Millisecond)
+	}
+	if os.Getenv("C11_DEBUG") != "" {
+		seen, inj := x.etcd.counters()
+		fmt.Fprintln(os.Stderr, "c11: settle timed out", f, seen, inj)
+	}
+}
+
+// etcdTags reports which requests reached the etcd stand-in and which faults were delivered
+func (x *executor) etcdTags() (tags []string) {
+	seen, inj := x.etcd.counters()
+	for k := range seen {
+		tags = append(tags, "etcd-req-"+k)
+	}
+	for k := range inj {
+		tags = append(tags, "etcd-injected-"+k)
+	}
+	sort.Strings(tags)
+	return
+}
+
+func mergeTags(a, b []string) []string {
+	m := map[string]bool{}
+	for _, t := range a {
+		m[t] = true
+	}
+	for _, t := range b {
+		m[t] = true
+	}
+	return sortedTags(m)
+}
+
 // Exec runs one op list against fresh real objects.
-func Exec(ops []hx.T) (obs []any, nontrivial bool, err error) {
+func Exec(ops []hx.T) (obs []any, nontrivial bool, tags []string, err error) {
 	x, err := newExecutor(ops)
 	if err != nil {
-		return nil, false, err
+		return nil, false, nil, err
 	}
 	defer x.cleanup()
 	for _, o := range ops {
 		obs = append(obs, x.do(o))
 	}
-	return obs, x.entered, nil
+	return obs, x.entered, x.etcdTags(), nil
 }
 
 // ---------------------------------------------------------------- generators
@@ -578,6 +674,7 @@ func genRandom(cfg *hx.Config, maxOps int) (ops []hx.T, obs []any, nontrivial bo
 		ops = append(ops, hx.C("OMode", "MNode"))
 	}
 	tg["mode-"+mode] = true
+	etcdEnv := false
 	if mode == "MApp" || mode == "MNode" {
 		// environment of the shipped modules: mostly the self-cluster node, sometimes the
 		// failure paths that are reachable offline
@@ -590,17 +687,40 @@ func genRandom(cfg *hx.Config, maxOps int) (ops []hx.T, obs []any, nontrivial bo
 			ops = append(ops, hx.C("OEnv", "ABad", true, false))
 		case p < 50:
 			ops = append(ops, hx.C("OEnv", "ABad", false, false))
+		case p < 80:
+			// cluster mode against the etcd stand-in, with up to two failing operations
+			tg["env-etcd"] = true
+			etcdEnv = true
+			ops = append(ops, hx.C("OEnv", []string{"AFree", "AFree", "ABusy", "ABad"}[r.Intn(4)], true, true))
+			for k := r.Intn(3); k > 0; k-- {
+				f := faultNames[r.Intn(len(faultNames))]
+				if f == "FNew" && r.Intn(3) > 0 {
+					f = "FDelete"
+				}
+				tg["fault-"+f] = true
+				ops = append(ops, hx.C("OFault", f))
+			}
 		}
 	}
 	n := r.Intn(6)
 	if r.Intn(12) == 0 {
 		n = 0
 	}
+	if etcdEnv && n == 0 {
+		n = 1
+	}
+	clusterAt := -1
+	if etcdEnv {
+		clusterAt = r.Intn(n)
+	}
 	wellBehaved := r.Intn(3) > 0 // two thirds of the histories keep the at-most-once hypothesis
 	actor := false
 	for i := 0; i < n; i++ {
-		if mode != "MList" && r.Intn(8) == 0 {
+		if i == clusterAt || (mode != "MList" && r.Intn(8) == 0) {
 			k := []string{"KWelcome", "KCluster", "KActor"}[r.Intn(3)]
+			if i == clusterAt {
+				k = "KCluster"
+			}
 			if k == "KActor" && actor {
 				k = "KWelcome"
 			}
@@ -702,11 +822,11 @@ func genRandom(cfg *hx.Config, maxOps int) (ops []hx.T, obs []any, nontrivial bo
 			push(hx.C("OStart"))
 		default:
 			if started && stopped && len(w) == 0 {
-				return ops, obs, x.entered, sortedTags(tg), nil
+				return ops, obs, x.entered, mergeTags(sortedTags(tg), x.etcdTags()), nil
 			}
 		}
 	}
-	return ops, obs, x.entered, sortedTags(tg), nil
+	return ops, obs, x.entered, mergeTags(sortedTags(tg), x.etcdTags()), nil
 }
 
 // fixed scenarios around the shipped modules
@@ -748,6 +868,41 @@ func builtinScenarios() (out [][]hx.T, tags [][]string) {
 	add([]string{"builtin-cluster-stop-after-failed-start"}, env("ABad", true), probe, c, start, stop, stop)
 	add([]string{"builtin-node-ok", "two-actor-systems"}, node, env("AFree", false), a, a, start, stop)
 	add([]string{"builtin-node-ok"}, node, env("ABad", false), w, a, c, probe, start, stop)
+
+	// ---- cluster mode against the etcd stand-in: every step of ClusterModule.Start / Stop fails in turn
+	etcd := func(a string) hx.T { return hx.C("OEnv", a, true, true) }
+	fault := func(f string) hx.T { return hx.C("OFault", f) }
+	add([]string{"builtin-etcd-ok"}, node, etcd("AFree"), w, a, c, probe, start, stop)
+	add([]string{"builtin-etcd-ok"}, appm, etcd("AFree"), w, c, probe, start, stop, stop)
+	add([]string{"builtin-etcd-ok"}, etcd("AFree"), probe, c, start, stop, stop)
+	add([]string{"builtin-etcd-ok", "start-again"}, etcd("AFree"), probe, c, start, start, stop, stop)
+	add([]string{"builtin-etcd-ok", "later"}, node, etcd("AFree"), later, c, later, start, hx.C("OFire", 0, true), hx.C("OFire", 2, true),
+		stop, hx.C("OFire", 3, true), hx.C("OFire", 5, true))
+	for _, f := range faultNames {
+		tg := []string{"builtin-etcd-fault", "fault-" + f}
+		add(tg, node, etcd("AFree"), fault(f), w, a, c, probe, start, stop)
+		add(tg, appm, etcd("AFree"), fault(f), w, c, probe, start, stop, stop)
+		// outside the App guard: Stop also after a failed Start, Start twice
+		add(tg, etcd("AFree"), fault(f), probe, c, start, stop, stop)
+		add(tg, etcd("AFree"), fault(f), c, probe, start, start, stop)
+	}
+	// several steps fail in one history
+	add([]string{"builtin-etcd-fault", "fault-multi"}, node, etcd("AFree"), fault("FWatch"), fault("FKaStream"), fault("FDelete"), w, a, c, probe, start, stop)
+	add([]string{"builtin-etcd-fault", "fault-multi"}, etcd("AFree"), fault("FGet"), fault("FDelete"), probe, c, start, stop, stop)
+	add([]string{"builtin-etcd-fault", "fault-multi"}, etcd("AFree"), fault("FPut"), fault("FDelete"), probe, c, probe, start, stop)
+	add([]string{"builtin-etcd-fault", "fault-multi"}, etcd("AFree"), fault("FGrant"), fault("FGarbage"), c, start, stop)
+	add([]string{"builtin-etcd-fault", "fault-multi"}, node, etcd("AFree"), fault("FNew"), fault("FDelete"), c, probe, start, stop)
+	add([]string{"builtin-etcd-fault", "fault-multi"}, appm, etcd("AFree"), fault("FKaGrant"), fault("FKaPut"), fault("FDelete"), c, probe, start, stop)
+	// two cluster modules in one list, both deregistrations fail
+	add([]string{"builtin-etcd-fault", "fault-FDelete", "two-clusters"}, appm, etcd("AFree"), fault("FDelete"), c, probe, c, start, stop)
+	// init fails although etcd answers; Stop of the half-made provider (outside the App guard)
+	add([]string{"builtin-cluster-fail", "builtin-etcd-fault"}, node, etcd("ABad"), w, a, c, probe, start, stop)
+	add([]string{"builtin-cluster-stop-after-failed-start", "builtin-etcd-fault"}, etcd("ABad"), fault("FDelete"), probe, c, start, stop, stop)
+	add([]string{"builtin-etcd-fault", "fault-FNew"}, etcd("ABad"), fault("FNew"), probe, c, start, stop)
+	// the environment completes a shipped module's call once more (stale continuation)
+	add([]string{"builtin-etcd-fault", "fault-FDelete", "stale-fire"}, etcd("AFree"), fault("FDelete"), probe, c, start, stop, hx.C("OFire", 2, true), hx.C("OFire", 1, false))
+	// remote cannot listen while the cluster is up
+	add([]string{"builtin-actor-listen-fail", "builtin-etcd-ok"}, node, etcd("ABusy"), w, c, a, probe, start, stop)
 	return
 }
 
@@ -762,11 +917,11 @@ func Run(cfg *hx.Config) error {
 		defer func() { os.Stdout = realStdout }()
 	}
 	emit := func(kind string, ops []hx.T, tags []string) error {
-		obs, nt, err := Exec(ops)
+		obs, nt, etags, err := Exec(ops)
 		if err != nil {
 			return err
 		}
-		cfg.Emit(hx.Case{Kind: kind, Ops: ops, Obs: obs, Nontrivial: nt, Tags: tags})
+		cfg.Emit(hx.Case{Kind: kind, Ops: ops, Obs: obs, Nontrivial: nt, Tags: mergeTags(tags, etags)})
 		return nil
 	}
 	if cfg.In != "" {
